@@ -505,6 +505,27 @@ pub fn run(op: &str, a: &[String]) -> Vec<String> {
             }
             vec![outs.join(";"), rd.pos.to_string()]
         }
+        // ts.ins role basehex withhex | base_seq with_seq     (sync loops; metamorphic pair)
+        "ts.ins" => {
+            let mut o = run("ts.read", &[a[0].clone(), a[1].clone()]);
+            let w = run("ts.read", &[a[0].clone(), a[2].clone()]);
+            o.truncate(1);
+            o.push(w[0].clone());
+            // and the async reader on the version with insertions, delivered in one piece
+            let n = unhex(&a[2]).len();
+            let sc = vec!["1048576"; n + 8].join(",");
+            let wa = run("ts.readasync", &[a[0].clone(), a[2].clone(), sc, "fin".into()]);
+            o.push(wa[0].clone());
+            o
+        }
+        // ts.hist role names hex script tail | (as ts.all)
+        "ts.hist" => run("ts.all", &[a[0].clone(), a[2].clone(), a[3].clone(), a[4].clone()]),
+        // settings.ins basehex withhex | base_result with_result
+        "settings.ins" => {
+            let mut o = super::ops2::run("settings.parse", &[a[0].clone()]);
+            o.extend(super::ops2::run("settings.parse", &[a[1].clone()]));
+            o
+        }
         // ids.classify v | sid_ok bidi client local_srv local_cli
         "ids.classify" => {
             let v = VarInt::try_from_u64(a[0].parse().unwrap()).unwrap();
